@@ -1,0 +1,26 @@
+//go:build verif
+
+// Contracts for package sub (comment-only; read by /verif/govc).
+
+package sub
+
+//@ struct socket
+//@   lock Mutex level 20
+//@   guarded_by Mutex: ctxs closed
+//@   immutable: master
+//@
+//@ struct pipe
+//@   immutable: s p
+//@
+//@ struct context
+//@   guarded_by s.Mutex: recvQLen recvQ sizeQ recvExpire closed subs
+//@   immutable: closeQ s
+//@
+//@ func (*context).matches
+//@   holds c.s.Mutex
+//@
+//@ func (*context).subscribe
+//@   holds c.s.Mutex
+//@
+//@ func (*context).unsubscribe
+//@   holds c.s.Mutex
